@@ -83,10 +83,14 @@ def build(name, extra=True):
         last = links[-1]
         first = links[0]
         v, tri = sc.mesh_data("octa")
+        c0 = np.zeros(3)
         E = np.eye(4)     # one pose array object shared by all added colliders, as in `I = np.eye(4); Capsule(I, ...); Cone(I, ...)`
         specs = [("extra:capsule", last, np.array([0.0, 0.0, 0.15]), C.Capsule(E, 0.05, 0.2)),
                  ("extra:cone", first, np.array([0.35, 0.0, 0.3]), C.Cone(E, 0.1, 0.25)),
-                 ("extra:mesh", last, np.array([0.0, 0.2, 0.0]), C.MeshGraph(E, np.ascontiguousarray(v * 0.25), tri))]
+                 ("extra:mesh", last, np.array([0.0, 0.2, 0.0]), C.MeshGraph(E, np.ascontiguousarray(v * 0.25), tri)),
+                 # two spheres built from one placeholder centre array (round 3: in-place write into the constructor's centre)
+                 ("extra:sphere_a", first, np.array([0.0, -0.3, 0.1]), C.Sphere(c0, 0.06)),
+                 ("extra:sphere_b", last, np.array([0.1, 0.0, -0.1]), C.Sphere(c0, 0.05))]
         for frame, parent, off, col in specs:
             T = np.eye(4)
             T[:3, 3] = off
